@@ -48,6 +48,17 @@ def main():
     except Exception:
         pass
     path, tl, want_model, vs = sys.argv[1], sys.argv[2], sys.argv[3] == "1", sys.argv[4]
+    # never outlive the query: die with the parent (PR_SET_PDEATHSIG) and after the time limit plus a margin (SIGALRM's
+    # default action ends the process even inside the solver's C++ code, whose own time limit is not reliable)
+    import signal
+
+    try:
+        import ctypes
+
+        ctypes.CDLL("libc.so.6").prctl(1, signal.SIGKILL)
+    except Exception:
+        pass
+    signal.alarm(int(int(tl) / 1000) + 10)
     try:
         import cvc5
     except Exception:
